@@ -1,11 +1,16 @@
 package fdosim
 
 import (
+	"bytes"
 	"context"
 	"fmt"
+	"io"
 	"math/rand/v2"
+	"strconv"
 	"strings"
 
+	fdo "github.com/fido-device-onboard/go-fdo"
+	"github.com/fido-device-onboard/go-fdo/cbor"
 	"github.com/fido-device-onboard/go-fdo/kex"
 	"github.com/fido-device-onboard/go-fdo/protocol"
 	"github.com/fido-device-onboard/go-fdo/serviceinfo"
@@ -32,6 +37,45 @@ type C08Plan struct {
 	Devices int         `json:"devices"`
 	Sched   SchedPolicy `json:"sched"`
 	Inject  []C08Inject `json:"inject"`
+	// Deviant makes device 1 a protocol participant that holds the session keys
+	// but skips a step: "skip66" (no DeviceServiceInfoReady before the first
+	// DeviceServiceInfo), "done-early:N" (sends Done after N service-info
+	// rounds although the owner has not signalled IsDone).
+	Deviant string `json:"deviant,omitempty"`
+}
+
+// c08Deviant wraps the device's transport (which sees plaintext and the
+// session) and answers the skipped request locally.
+type c08Deviant struct {
+	inner     fdo.Transport
+	mode      string
+	rounds    int
+	net       *Net
+	deviated  int // network sequence number at the moment of the deviation (0: not yet)
+	fakeCount int
+}
+
+func (t *c08Deviant) Send(ctx context.Context, msgType uint8, msg any, sess kex.Session) (uint8, io.ReadCloser, error) {
+	fake := func(rt uint8, v any) (uint8, io.ReadCloser, error) {
+		if t.deviated == 0 {
+			t.deviated = t.net.Seq()
+		}
+		t.fakeCount++
+		b, _ := cbor.Marshal(v)
+		return rt, io.NopCloser(bytes.NewReader(b)), nil
+	}
+	switch {
+	case t.mode == "skip66" && msgType == 66:
+		return fake(67, []any{nil})
+	case strings.HasPrefix(t.mode, "done-early") && msgType == 68:
+		n, _ := strconv.Atoi(strings.TrimPrefix(t.mode, "done-early:"))
+		if t.rounds >= n {
+			// pretend the owner said IsDone
+			return fake(69, []any{false, true, []any{}})
+		}
+		t.rounds++
+	}
+	return t.inner.Send(ctx, msgType, msg, sess)
 }
 
 type c08 struct{ noPrepare }
@@ -96,6 +140,14 @@ func (p *c08) Plan(tier string, seed uint64, i int) any {
 		kill := []int{62, 64, 66, 68, 12, 22, 32}[j%7]
 		reuse := map[int]int{62: 62, 64: 62, 66: 62, 68: 66, 12: 12, 22: 22, 32: 32}[kill]
 		pl.Inject = []C08Inject{{After: 20 + r.IntN(20), Pick: -kill, Token: "own", Mutate: 1 + r.IntN(30)}, {After: 0, Pick: -reuse, Token: "invalidated"}}
+		return pl
+	}
+	if i < 2*sweep+40+48 {
+		// a participant holding the session keys skips a step
+		j := i - 2*sweep - 40
+		pl.Sql = j%4 == 3
+		pl.Devices = 2 + j%2
+		pl.Deviant = []string{"skip66", "done-early:0", "done-early:1", "done-early:2"}[j%4]
 		return pl
 	}
 	n := 1 + r.IntN(12)
@@ -173,6 +225,10 @@ func (p *c08) Exec(env *Env, plan any) {
 	o1 := s.Nodes["owner1"]
 	o1.Mods = &ModSM{Factory: PingFactory(o1, rec, [][]byte{[]byte("owner-to-device-service-info")})}
 
+	var deviant *c08Deviant
+	if pl.Deviant != "" {
+		deviant = &c08Deviant{mode: pl.Deviant, net: s.Net}
+	}
 	results := make([]string, pl.Devices)
 	for d := 0; d < pl.Devices; d++ {
 		d := d
@@ -196,8 +252,13 @@ func (p *c08) Exec(env *Env, plan any) {
 				results[d] = "TO1:" + err.Error()
 				return
 			}
-			if _, err := s.TO2(ctx, dev, "owner1", to1d, TO2Opts{Kex: defaultKex(cfg), Cipher: kex.A128GcmCipher,
-				Modules: map[string]serviceinfo.DeviceModule{"ping": &PongDevice{Mod: "ping", Rec: rec}}}); err != nil {
+			opts := TO2Opts{Kex: defaultKex(cfg), Cipher: kex.A128GcmCipher,
+				Modules: map[string]serviceinfo.DeviceModule{"ping": &PongDevice{Mod: "ping", Rec: rec}}}
+			if d == 0 && deviant != nil {
+				deviant.inner = s.Transport(name, "owner1")
+				opts.Transport = deviant
+			}
+			if _, err := s.TO2(ctx, dev, "owner1", to1d, opts); err != nil {
 				results[d] = "TO2:" + err.Error()
 				return
 			}
@@ -561,6 +622,28 @@ func (p *c08) Exec(env *Env, plan any) {
 			o.Violate("C08", "tokenless-request-accepted", fmt.Sprintf("%d|%s", ir.msg, ir.in.Token), "request type %d with token choice %q was answered %d (%s)", ir.msg, ir.in.Token, ir.resp, ir.desc)
 		}
 	}
+	// a participant that skipped a step: from the deviation on, none of its
+	// requests may have one of the effects, and the skipped-to request must be
+	// refused
+	if deviant != nil && deviant.deviated > 0 {
+		o.Nontrivial = true
+		o.Fault("participant-" + strings.SplitN(pl.Deviant, ":", 2)[0])
+		for _, ev := range s.Net.Log {
+			if ev.Phase != "req" || ev.From != "dev1" || ev.Seq <= deviant.deviated || ev.To != "owner1" {
+				continue
+			}
+			var bad []string
+			for _, e := range journal[min(ev.EffFrom, len(journal)):min(ev.EffTo, len(journal))] {
+				if c08Forbidden[e.Op] && e.Node == "owner1" {
+					bad = append(bad, e.Op)
+				}
+			}
+			if len(bad) > 0 {
+				o.Class = "EFFECT-AFTER-SKIPPED-STEP"
+				o.Violate("C08", "effect-after-skipped-step", fmt.Sprintf("%s|%d|%s", strings.SplitN(pl.Deviant, ":", 2)[0], ev.MsgType, bad[0]), "device that deviated (%s) sent type %d and caused effects %v", pl.Deviant, ev.MsgType, bad)
+			}
+		}
+	}
 	// global: every forbidden effect lies in the window of an honest request or of a judged-as-duplicate one
 	for i, e := range journal {
 		if !c08Forbidden[e.Op] {
@@ -582,7 +665,10 @@ func (p *c08) Exec(env *Env, plan any) {
 			ok++
 		}
 	}
-	if len(injected) == 0 && ok != pl.Devices {
+	if deviant != nil && ok < pl.Devices-1 {
+		o.Violate("C08", "honest-run-must-succeed", pl.Key, "the devices that did not deviate ended %v", results)
+	}
+	if len(injected) == 0 && deviant == nil && ok != pl.Devices {
 		o.Violate("C08", "honest-run-must-succeed", pl.Key, "without any adversary request the honest devices ended %v", results)
 	}
 	if o.Class == "" {
